@@ -5,7 +5,7 @@ import mpmath as mp
 from spec import helmert as H
 
 RULES = {
-    'C07.B.formula': 'every shipped set with a date reference epoch x epochs {1980-01-01 .. 2060-12-31 sampled, reference epoch, 29 Feb, day before/after the reference epoch} x points up to 1e7 m in all octants + random sets: |conform14 - similarity(p + rate*days/365.25)| <= 2 micrometres; negated set at the same epoch returns the point within the second-order bound',
+    'C07.B.formula': 'every shipped set with a date reference epoch x epochs {1980-01-01 .. 2060-12-31 sampled, reference epoch, 29 Feb, day before/after the reference epoch} x points up to 1e7 m in all octants + random sets, the process running under four time zones (UTC, Central European, US Eastern, Australian Eastern - DST rules of both hemispheres): |conform14 - similarity(p + rate*days/365.25)| <= 2 micrometres; negated set at the same epoch returns the point within the second-order bound',
     'C07.B.atrf': 'ATRF2014 <-> GDA2020 wrappers on points on the Earth surface x epochs 1980..2060: mutual inverses within 5 micrometres; bit-exact identity at 2020-01-01; repeated calls with covariance give identical results (no history dependence)',
 }
 PARAMS = ('tx', 'ty', 'tz', 'sc', 'rx', 'ry', 'rz')
@@ -13,7 +13,9 @@ PARAMS = ('tx', 'ty', 'tz', 'sc', 'rx', 'ry', 'rz')
 
 def chunks(tier, seed):
     n = 8 if tier == 'quick' else 32
-    return [dict(seed=seed * 131 + i, i=i, n=n, pts=4 if tier == 'quick' else 40) for i in range(n)]
+    # the process time zone is part of the configuration: elapsed time between two dates must not depend on it (DST zones of both hemispheres)
+    tzs = ['UTC0', 'CET-1CEST,M3.5.0,M10.5.0/3', 'EST5EDT,M3.2.0,M11.1.0', 'AEST-10AEDT,M10.1.0,M4.1.0/3']
+    return [dict(seed=seed * 131 + i, i=i, n=n, pts=4 if tier == 'quick' else 40, tz=tzs[i % len(tzs)]) for i in range(n)]
 
 
 def epochs(rng, ref, k):
@@ -46,6 +48,10 @@ def check(tr, t, X, ep):
 
 
 def work(item):
+    import os, time
+    if item.get('tz'):
+        os.environ['TZ'] = item['tz']
+        time.tzset()
     import geodepy.transform as tr, geodepy.constants as C
     rng = random.Random(item['seed'])
     cat = [(n, v) for n, v in sorted(vars(C).items()) if isinstance(v, C.Transformation) and isinstance(v.ref_epoch, datetime.date)]
